@@ -262,8 +262,9 @@ def r4(ctx, facts):
             ctx.ob("C15-R4", "%s explicit-id path" % b.path, "undetermined", b.loc(), "no match on the explicit id")
             continue
         verdicts = []
+        mono = []      # (verdict, bb) for every store to the counter on the explicit-id path: the counter never moves backwards
 
-        def walk(bb, holds, seen):
+        def walk(bb, holds, seen, rel=None):
             if bb in seen or len(verdicts) > 64:
                 return
             seen = seen | {bb}
@@ -274,6 +275,18 @@ def r4(ctx, facts):
                     plus1 = vo[0] == "op" and vo[1].startswith("Add") and I in vo[2]
                     mx = vo[0] == "call" and b.term(vo[1])["callee"].get("name") == "max" and any(d[0] == "op" and d[1].startswith("Add") and I in d[2] for d in deps)
                     holds = True if (plus1 or mx) else "unknown"
+                    # monotonicity: max(counter, ..) / counter + c never decrease; id + 1 does not decrease only where counter <= id is known
+                    mx_n = vo[0] == "call" and b.term(vo[1])["callee"].get("name") == "max" and (N in deps or any(b.arg_origin(vo[1], k) == N for k in range(len(b.term(vo[1])["args"]))))
+                    inc_n = vo[0] == "op" and vo[1].startswith("Add") and N in vo[2] and I not in vo[2]
+                    if mx_n or inc_n:
+                        mono.append((True, bb))
+                    elif plus1:
+                        mono.append((True if rel in ("N<=I", "N<I", "N==I") else False, bb))
+                    elif I in deps or vo == I:
+                        mono.append((False if rel not in ("N<=I", "N<I", "N==I") else "unknown", bb))
+                    else:
+                        mono.append(("unknown", bb))
+                    rel = None
             t = b.term(bb)
             if t["k"] == "return":
                 verdicts.append((holds, bb))
@@ -283,16 +296,24 @@ def r4(ctx, facts):
                 if o[0] == "op" and o[1] in ("Ge", "Gt", "Le", "Lt", "Eq", "Ne") and set(o[2]) == {I, N}:
                     rel_t, rel_f = CMP_IMPLIES[(o[1], o[2][0] == I)]
                     tv = {v: x for v, x in t["targets"]}
-                    walk(t["otherwise"], True if rel_t == "N>I" else holds, seen)
+                    walk(t["otherwise"], True if rel_t == "N>I" else holds, seen, rel_t)
                     if 0 in tv:
-                        walk(tv[0], True if rel_f == "N>I" else holds, seen)
+                        walk(tv[0], True if rel_f == "N>I" else holds, seen, rel_f)
                     return
             for s_ in b.succs(bb):
-                walk(s_, holds, seen)
+                walk(s_, holds, seen, rel)
         walk(some[0][1], False, frozenset())
         bad = [v for v in verdicts if v[0] is False]
         unk = [v for v in verdicts if v[0] == "unknown"]
         res = False if bad else ("undetermined" if unk or not verdicts else True)
+        mbad = [v for v in mono if v[0] is False]
+        munk = [v for v in mono if v[0] == "unknown"]
+        mres = False if mbad else ("undetermined" if munk else True)
+        ctx.ob("C15-R4", "%s: an explicitly given id never moves the counter backwards" % b.path, mres, b.loc(mbad[0][1]) if mbad else b.loc(),
+               "" if mres is True else ("on the explicit-id path the counter `%s` is overwritten with a value derived from the id on an edge where counter <= id is not "
+                                        "known (no comparison of the two guards the store, and it is neither max(counter, ..) nor counter + c): loading an id below "
+                                        "the counter rewinds it and the next fresh markers repeat ids that live entities hold" % cnt[0] if mbad else
+                                        "could not relate the value stored into the counter to its old value"))
         ctx.ob("C15-R4", "%s: counter ends above an explicitly given id" % b.path, res, b.loc(),
                "" if res is True else ("on the explicit-id path the counter `%s` is not known to exceed the id at return (a comparison edge that only gives "
                                        "counter >= id, or no update): the next freshly allocated marker can repeat a loaded id" % cnt[0] if bad else
